@@ -780,3 +780,68 @@ def window_align(ctx):
                               '(streams from liblzma with such dictionary sizes are rejected or decoded wrongly)' % expr_str(e)[:90])
     if n == 0:
         ctx.anchor_missing('call sites of %s' % ctor.key)
+
+
+@rule('WINDOW-PRESET', ['C01'], floor=1)
+def window_preset(ctx):
+    """A decoder constructor that takes a preset dictionary may size its window from something other than the
+    dictionary size (the declared uncompressed size, "to save memory") only when no preset dictionary is
+    in play: the encoder copies matches out of the whole preset dictionary, so a window cut to the payload
+    size loses the bytes those matches refer to ("dist overflow" on a valid stream)."""
+    from lzlint.core import control_conditions
+    F = ctx.facts
+    n = 0
+    for f in F.fns:
+        if f.kind == 'closure':
+            continue
+        preset_params = [i for i in range(1, f.arg_count + 1) if 'Option<&[u8]>' in f.local_ty(i).replace('std::option::', '')]
+        if not preset_params:
+            continue
+        prov = None
+        for bi, t, c in f.calls():
+            gs = F.resolve_callee(c)
+            if not gs or not any(g.self_adt and 'Decoder' in g.self_adt and any(cc.is_('vec::from_elem') for _, _, cc in g.calls()) for g in gs):
+                continue
+            prov = prov or Prov(f)
+            args = [prov.operand(a, 0, '%d:T' % bi) for a in t['args']]
+            if not any(x[0] == 'param' and x[1] in preset_params for a in args for x in expr_walk(a)):
+                continue
+            pp = [x[1] for a in args for x in expr_walk(a) if x[0] == 'param' and x[1] in preset_params][0]
+            # the size argument: the other one
+            size = [a for a in args if not any(x[0] == 'param' and x[1] == pp for x in expr_walk(a))]
+            if not size:
+                continue
+            n += 1
+            key = '%s:window-keeps-preset' % f.key
+            locs = {x[1] for x in expr_walk(size[0]) if x[0] == 'local'}
+            bad = None
+            base_params = None
+            for l in sorted(locs):
+                for (b2, s2, k, node) in sorted(f.whole_defs(l), key=lambda d: (d[0], d[1] if d[1] is not None else 1 << 30)):
+                    if k == 'assign':
+                        e = prov.rvalue(node['rv'], 0, '%d:%d' % (b2, s2))
+                    else:
+                        continue
+                    ps = {x[1] for x in expr_walk(e) if x[0] == 'param'}
+                    # look through one level of locals holding call results
+                    for x in expr_walk(e):
+                        if x[0] == 'local':
+                            for (_, ex) in prov.def_exprs(x[1]):
+                                ps |= {y[1] for y in expr_walk(ex) if y[0] == 'param'}
+                    if not ps:
+                        continue
+                    if base_params is None:
+                        base_params = ps
+                        continue
+                    if ps - base_params:
+                        conds = [cx for _, cx in control_conditions(f, b2, prov)] + [cx for _, _, cx in guards_of(f, b2, prov)]
+                        if not any(any(y[0] == 'param' and y[1] == pp for y in expr_walk(cx)) for cx in conds):
+                            bad = (b2, s2, ps - base_params)
+            if bad:
+                ctx.violation(key, f.loc(bad[0], bad[1]), 'the window size is re-derived from parameter(s) %s without testing the preset dictionary '
+                              'parameter `%s`: with a preset dictionary and a small declared size the window no longer holds the bytes the '
+                              'stream\'s matches refer to' % (', '.join(f.local_name(i) for i in sorted(bad[2])), f.local_name(pp)))
+            else:
+                ctx.ok(key, f.loc(bi), 'window size derives from the dictionary size only, or is shrunk only under a test of `%s`' % f.local_name(pp))
+    if n == 0:
+        ctx.anchor_missing('decoder constructors taking a preset dictionary')
